@@ -217,9 +217,10 @@ def run(ctx):
     f = ctx.anchor(CORE + "compute_lagrange_coefficient")
     if f:
         item = next_item(lambda t: mentions(t, arg(1)))
-        same = lambda fa: ("pass" if fa[4] else None) if (fa[0] == "cond" and fa[1] == "eq" and
-                                                          ((mentions(fa[2], arg(3)) and mentions(fa[3], item)) or
-                                                           (mentions(fa[3], arg(3)) and mentions(fa[2], item)))) else None
+        xi = lambda t: strip_newtype_fields(t) == ("arg", 3) or (t[0] == "field" and strip_newtype_fields(t[1]) == ("arg", 3) and t[3] == "0")
+        xj = lambda t: item(strip_newtype_fields(t)) or (t[0] == "field" and item(strip_newtype_fields(t[1])) and t[3] == "0")
+        same = lambda fa: ("pass" if fa[4] else None) if (fa[0] == "cond" and fa[1] == "eq" and fa[3] is not None and
+                                                          ((xi(fa[2]) and xj(fa[3])) or (xi(fa[3]) and xj(fa[2])))) else None
         lr = reductions(ctx, f.key, adaptors={}, skip={"num": same, "den": same}, min_loops=1)
         if lr:
             ctx.check(lr[0]["iter_term"] is not None and is_call(lr[0]["iter_term"][1], name="iter") and lr[0]["iter_term"][1][2][0] == ("arg", 1),
